@@ -165,7 +165,13 @@ def vec_rule(rep, prog, cfg):
             leaves, _ = fl.sources([op_local(t["args"][1])], through_call=through, follow_mut=False)
             if any(x[0] == "call" and CMD + "response" in callee_names(b.blocks[x[1]]["t"]) for x in leaves):
                 push_ok = True
-        ok = a_ok and pos_ok and push_ok
+        back = set()
+        for bb, t in b.calls():
+            for n in callee_names(t):
+                if n.rsplit("::", 1)[-1] in ("rev", "next_back", "rfold", "nth_back"):
+                    back.add(n.rsplit("::", 1)[-1])
+        detail["backward_adaptors"] = sorted(back)
+        ok = a_ok and pos_ok and push_ok and not back
     rep.check(ok, rule, cfg + "/responses zip", b.loc(b.span),
               "Vec<C>::responses does not pair command i with frame i by one zip(self, frames) and push the results in order (%s)" % detail, detail=detail)
     b = d["command_list"]
